@@ -26,7 +26,7 @@ def evLine (e : Ev) : String :=
     if st = 1 then s!"W {n} {size} !" else s!"W {n} {size} {hex8 (fnv (padTo d size))}" ++ (if st = 2 then " e" else "")
 
 def entryLine (cacheMode : Bool) (d : Nat) (e : EntryInfo) : String :=
-  let base := s!"E {d} {e.type} {hexOfBytes e.name} {e.sector} {e.size} {e.access} {hexOrTilde e.comment} {e.year} {e.month} {e.days} {e.hour} {e.mins} {e.secs}"
+  let base := s!"E {d} {e.type} {hexOfBytes e.name} {toInt32 e.sector} {e.size} {e.access} {hexOrTilde e.comment} {e.year} {e.month} {e.days} {e.hour} {e.mins} {e.secs}"
   if cacheMode then base else base ++ s!" {toInt32 e.real} {toInt32 e.parent}"
 
 structure Drv where
